@@ -172,3 +172,47 @@ def psbt_sp_counters(ex, n):
             g = got[i]
             claims[f"output_{i}"] = sand(g[0] == scans[i], g[1] == 100 + i, g[2] == k_i)
     return claims
+
+
+# ------------------------------------------------------------------ BIP373 session: the aggregate nonce counts a participant as often as the key list does
+from btclib.psbt import musig2 as _pm
+
+
+class _Parts:
+    def __init__(self, participants):
+        self.participants = participants
+        self.tweaked_pub_key = b"\x02" + b"\x55" * 32
+        self.tweaks, self.is_xonly, self.msg, self.key_agg_ctx = [], [], b"m", "ctx"
+
+
+class _In:
+    pass
+
+
+class _P:
+    def __init__(self):
+        self.inputs = [_In()]
+
+
+@ob("C16", "bip373_aggregate_nonce_follows_the_participant_list", quick=[dict(n=n) for n in (1, 2, 3)],
+    bound="a session of n = 1..3 list positions whose participant keys are symbolic over three values (so a key may appear once, twice or three times, anywhere in the list), a public nonce stored per "
+          "distinct key: session_context hands nonce_agg one nonce per list position, in list order -- a key that BIP327 lets appear twice is counted twice, as its coefficient and its partial "
+          "signature are",
+    stubs=["_session_parts, _session_pub_nonces, musig2.nonce_agg and SessionContext are abstract (they record their arguments)"],
+    functions=["btclib.psbt.musig2.session_context"], min_ok=1, timeout=300)
+def bip373_nonces(ex, n):
+    ids = [ex.int(f"key{i}", 0, 2) for i in range(n)]
+    keys = [bytes([2, ids[i]]) + b"\x00" * 31 for i in range(n)]
+    nonce_of = {bytes([2, v]) + b"\x00" * 31: bytes([0xA0 + v]) * 66 for v in range(3)}
+    ex.stub(_pm._session_parts, lambda psbt, vin_i, agg, leaf_hash: _Parts(keys))
+    ex.stub(_pm._session_pub_nonces, lambda psbt_in, tweaked, leaf_hash: dict(nonce_of))
+    seen = {}
+
+    def fake_agg(nonces):
+        seen["nonces"] = list(nonces)
+        return b"agg"
+    ex.stub(_pm.musig2.nonce_agg, fake_agg)
+    ex.stub(_pm.musig2.SessionContext, lambda *a, **k: ("ctx", a))
+    _pm.session_context(_P(), 0, b"\x02" + b"\x66" * 32)
+    got = seen.get("nonces", [])
+    return {"one_nonce_per_list_position_in_order": sand(len(got) == n, *[got[i][0] == 0xA0 + ids[i] for i in range(min(n, len(got)))]) if len(got) == n else False}
